@@ -950,6 +950,10 @@ func (st *State) localsEnv(env *SpecEnv) func(string) (Val, bool) {
 		if best == nil {
 			return Val{}, false
 		}
+		if env.boundNames == nil {
+			env.boundNames = map[string]string{}
+		}
+		env.boundNames[name] = best.Comment
 		pv := fr.regs[best]
 		if pv.P == nil {
 			return Val{}, false
